@@ -598,6 +598,14 @@ def run(c: Check):
     bad = c.corr_shards("corr", header, items, g_case, "check_case", shard=150) if items else []
     c.extra["disagreeing_cases"] = [dict(case={k: items[i][0][k] for k in ("jobs", "manual", "ops")},
                                          observed=items[i][1]) for i in bad[:3]]
+    if bad:
+        # diagnostic only (no obligation): do the disagreeing cases behave like the literal model of the pinned commit?
+        sub = [items[i] for i in bad[:150]]
+        body = (header + "Definition cases := [\n" + ";\n".join(g_case(x) for x in sub) + "].\n"
+                "Eval vm_compute in (map check_case_prefix cases).\n")
+        rc, out, err = c.coq_eval("prefixdiag", body, 600)
+        if rc == 0:
+            c.extra["disagreeing_cases_matching_pinned_commit_model"] = f"{out.count('true')}/{len(sub)}"
 
     # ---- identifier half (implementation side; the model tie is Hash.v's)
     if graphs:
